@@ -1,6 +1,6 @@
 """C07 — recursive schemas produce finitely sized types (structural clauses)."""
 import re
-from lib import alias_root  # noqa
+from lib import alias_root, must_pass  # noqa
 from lib import (Canon, walk, nodes, ends, src, psrc, outcome, contains_node, pat_top_variants, short, calls_in, block_last,
                  strip_refs, guards, gtext, templates_in, top_stmts)
 import tmplparse as tp
@@ -278,7 +278,13 @@ def run(facts, rep, tier):
             before = " ; ".join(src(x) for x in stmts[:ix])
             if ("%s.insert(" % active) not in before:
                 okp = False
-        rep.ob("C07.W3", "active-insert-on-push", okp and len(pushes) >= 2, "%d push sites, each preceded by %s.insert(..) in its block" % (len(pushes), active), pushes[0][0].get("sp") if pushes else None)
+            # ... on every path: an insert under a condition (only named types, only unvisited ones) leaves nodes on the DFS path
+            # that the snip test cannot see, and anonymous nodes are shared, so a cycle that closes on one is never cut
+            is_ins = lambda x: x.get("k") == "mcall" and x.get("name") == "insert" and x.get("recv") is not None and alias_root(h, x["recv"]) == active
+            if not any(must_pass(s_, is_ins) for s_ in stmts[:ix]):
+                okp = False
+        rep.ob("C07.W3", "active-insert-on-push", okp and len(pushes) >= 2, ("%d push sites, each preceded on every path by %s.insert(..) in its block" % (len(pushes), active)) if okp else
+               "a node is pushed on the DFS stack without (on every path) entering the active set first: the snip test `active.contains(child)` misses a cycle that closes on it (anonymous nodes are shared)", pushes[0][0].get("sp") if pushes else None)
         pops = [(n, a) for n, a in nodes(h["body"], "mcall") if n["name"] == "pop" and src(n["recv"]) == stackv]
         okq = bool(pops)
         for n, a in pops:
